@@ -1,7 +1,187 @@
-//! C15 — not built yet (stub keeps the registry stable while modules are written in parallel).
+//! C15 — compilation is deterministic.
 
-use crate::engine::case::Prop;
+use crate::engine::case::*;
+use crate::engine::rng::hash64;
+use crate::engine::tape::Gen;
+use crate::gens::prog::{self, Layout, PG};
+use crate::gens::textgen as tg;
+use crate::props::c01;
+use crate::runners::artefacts::{compile_artefacts, diff_line, Artefacts};
+use serde_json::{json, Value};
+
+pub struct C15;
 
 pub fn prop() -> Option<&'static dyn Prop> {
-    None
+    Some(&C15)
+}
+
+/// artefacts of `src` computed by a fresh process (different hash seeds, empty interner history)
+fn fresh_process(src: &str, sched: bool, tag: u64) -> Result<(String, Vec<(String, String)>), String> {
+    let dir = "/verif/target/work/c15";
+    let _ = std::fs::create_dir_all(dir);
+    let path = format!("{dir}/{}-{tag:016x}.mmm", std::process::id());
+    std::fs::write(&path, src).map_err(|e| e.to_string())?;
+    let exe = std::env::current_exe().map_err(|e| e.to_string())?;
+    let mut cmd = std::process::Command::new(exe);
+    cmd.args(["artefacts", &path]);
+    if sched {
+        cmd.arg("--sched");
+    }
+    let out = cmd.output().map_err(|e| e.to_string());
+    let _ = std::fs::remove_file(&path);
+    let out = out?;
+    if !out.status.success() {
+        return Err(format!("child exited with {:?}", out.status));
+    }
+    let v: Value = serde_json::from_slice(&out.stdout).map_err(|e| e.to_string())?;
+    let digest = v.get("digest").and_then(|d| d.as_str()).unwrap_or("").to_string();
+    let texts = v.get("texts").and_then(|t| t.as_array()).map(|a| a.iter().filter_map(|x| Some((x.get(0)?.as_str()?.to_string(), x.get(1)?.as_str()?.to_string()))).collect()).unwrap_or_default();
+    Ok((digest, texts))
+}
+
+fn describe(a: &Artefacts, which: &str, other_texts: &[(String, String)]) -> String {
+    let mine = a.texts.iter().find(|(n, _)| n == which).map(|(_, t)| t.as_str()).unwrap_or("");
+    let theirs = other_texts.iter().find(|(n, _)| n == which).map(|(_, t)| t.as_str()).unwrap_or("");
+    diff_line(mine, theirs)
+}
+
+fn finish(src: &str, sched: bool, history: &[String], classes: Vec<String>, cx: &Cx) -> CaseResult {
+    let hash = hash64(src.as_bytes());
+    let direct = json!({"text": src, "sched": sched, "history": history});
+    if cx.dry {
+        let mut r = CaseResult::discard("dry");
+        r.render = Some(direct.clone());
+        r.direct = Some(direct);
+        return r;
+    }
+    // 1. first compilation in this process (which has compiled whatever came before)
+    let a1 = compile_artefacts(src, sched, true);
+    // 2. a generated history of other compilations, then again
+    for h in history {
+        let _ = compile_artefacts(h, false, false);
+    }
+    let a2 = compile_artefacts(src, sched, true);
+    let a3 = compile_artefacts(src, sched, true);
+    let mut r = CaseResult::held(hash);
+    if let Some(w) = a1.first_difference(&a2).or_else(|| a2.first_difference(&a3)) {
+        let other = if a1.first_difference(&a2).is_some() { &a2 } else { &a3 };
+        r = CaseResult::fail(hash, format!("c15:differs-within-process:{w}"), format!("artefact `{w}` differs between two compilations in one process: {}", describe(&a1, &w, &other.texts)));
+    } else {
+        // 3. a fresh process
+        match fresh_process(src, sched, hash) {
+            Err(e) => {
+                return CaseResult::discard(format!("child:{e}"));
+            }
+            Ok((digest, texts)) => {
+                if digest != a1.digest() {
+                    let my_digest = a1.digest();
+                    let mine: Vec<&str> = my_digest.split(';').collect();
+                    let theirs: Vec<&str> = digest.split(';').collect();
+                    let w = mine.iter().zip(theirs.iter()).find(|(x, y)| x != y).map(|(x, _)| x.split(':').next().unwrap_or("").to_string()).unwrap_or_else(|| "number-of-artefacts".into());
+                    r = CaseResult::fail(hash, format!("c15:differs-across-processes:{w}"), format!("artefact `{w}` differs between this process and a fresh one: {}", describe(&a1, &w, &texts)));
+                }
+            }
+        }
+    }
+    r.classes = classes;
+    let compiled = a1.texts.iter().any(|(n, t)| n == "bytecode" && !t.starts_with("ERR") && !t.starts_with("PANIC"));
+    if compiled {
+        r.classes.push("compiled".into());
+    }
+    if !history.is_empty() {
+        r.classes.push("with-history".into());
+    }
+    r.nontrivial = compiled || r.is_fail();
+    if cx.render || r.is_fail() {
+        r.render = Some(json!({"text": src, "sched": sched, "history_len": history.len()}));
+    }
+    r.direct = Some(direct);
+    r
+}
+
+impl Prop for C15 {
+    fn id(&self) -> &'static str {
+        "C15"
+    }
+    fn spaces(&self, tier: Tier) -> Vec<Space> {
+        let nc = tg::corpus().len() as u64;
+        match tier {
+            Tier::Quick => vec![
+                Space { name: "corpus", size: nc, exhaustive: true, chunk: 8, case_timeout_s: 120.0, what: "every shipped source (modules, macros, sum types, arrays, scheduler)" },
+                Space { name: "gen", size: 600, exhaustive: false, chunk: 20, case_timeout_s: 120.0, what: "generated programs x generated compilation histories" },
+            ],
+            Tier::Thorough => vec![
+                Space { name: "corpus", size: nc, exhaustive: true, chunk: 8, case_timeout_s: 120.0, what: "every shipped source" },
+                Space { name: "gen", size: 20_000, exhaustive: false, chunk: 50, case_timeout_s: 120.0, what: "generated programs x generated compilation histories" },
+            ],
+        }
+    }
+    fn run(&self, space: &str, index: u64, g: &mut Gen, cx: &Cx) -> CaseResult {
+        if space == "corpus" {
+            let (path, src) = &tg::corpus()[index as usize];
+            let sched = src.contains('@') || src.contains("_mimium_schedule_at");
+            let mut classes = vec!["mode:corpus".to_string()];
+            for (k, l) in [("type ", "uses:type-decl"), ("mod ", "uses:module"), ("#stage", "uses:macro"), ("match ", "uses:match"), ("[", "uses:array")] {
+                if src.contains(k) {
+                    classes.push(l.to_string());
+                }
+            }
+            let _ = path;
+            return finish(src, sched, &[], classes, cx);
+        }
+        let (cfg, _off) = c01::pcfg(cx);
+        let mut pg = PG::new(g, cfg.clone());
+        let p = pg.program();
+        let mut classes = pg.feat.classes();
+        classes.push("mode:gen".into());
+        let src = prog::render(&p, &Layout::default());
+        // history: 0-4 other programs (generated, shipped, or broken) compiled in between
+        let hn = g.int_small(0, 4) as usize;
+        let mut history = vec![];
+        for _ in 0..hn {
+            match g.below(3) {
+                0 => {
+                    let mut pg2 = PG::new(g, cfg.clone());
+                    let p2 = pg2.program();
+                    history.push(prog::render(&p2, &Layout::default()));
+                }
+                1 => {
+                    let c = tg::corpus();
+                    history.push(c[g.usize_below(c.len())].1.clone());
+                }
+                _ => history.push(tg::soup(g, 12)),
+            }
+        }
+        finish(&src, false, &history, classes, cx)
+    }
+    fn run_direct(&self, input: &Value, cx: &Cx) -> Option<CaseResult> {
+        let t = input.get("text")?.as_str()?;
+        let sched = input.get("sched").and_then(|v| v.as_bool()).unwrap_or(false);
+        let history: Vec<String> = input.get("history").and_then(|v| v.as_array()).map(|a| a.iter().filter_map(|x| x.as_str().map(|s| s.to_string())).collect()).unwrap_or_default();
+        Some(finish(t, sched, &history, vec![], cx))
+    }
+    fn shrink_direct(&self, input: &Value) -> Vec<Value> {
+        let Some(t) = input.get("text").and_then(|v| v.as_str()) else { return vec![] };
+        let mut out = vec![];
+        if input.get("history").and_then(|v| v.as_array()).map(|a| !a.is_empty()).unwrap_or(false) {
+            let mut v = input.clone();
+            v["history"] = json!([]);
+            out.push(v);
+        }
+        for s in c01::line_candidates(t) {
+            let mut v = input.clone();
+            v["text"] = json!(s);
+            out.push(v);
+        }
+        out
+    }
+    fn rule(&self) -> String {
+        "Cases are (program, compilation history). Every shipped source (exhaustive) and generated programs, each compiled three times in a worker process that has already compiled other cases, with 0-4 further programs (generated, shipped or broken) compiled in between, and once in a fresh child process (different hash seeds, empty interner history). Compared byte for byte: bytecode listing, dsp state layout, I/O channels, WASM module bytes, WASM-side layout, and the outputs of 8 samples on both runtimes. Non-trivial = the program compiles; distinct by source.".into()
+    }
+    fn assumptions(&self) -> Vec<String> {
+        vec!["Display of Mir / vm::Program (what the CLI's --emit-* options print) is taken as the listing; a process-dependent id inside it is the property's subject".into()]
+    }
+    fn required_classes(&self, _tier: Tier) -> Vec<&'static str> {
+        vec!["compiled", "with-history", "mode:corpus", "mode:gen", "uses:type-decl", "uses:module", "uses:macro"]
+    }
 }
